@@ -75,6 +75,11 @@ theorem last1_refines (xs : List Val) (asNil : Bool) (h : asNil = true → xs = 
   · vc [ListProgs.last, vLast, Pure]; fin
   · vc [ListProgs.last, vLast, Pure, h]
 
+-- the translated programs run: concrete instances (tests, not obligations)
+example : run ListProgs.nthcdr [.int 1, listArg 1 [1, 2, 3] false] = ⟨some (.ret (.lst ⟨[2, 3], .arg 1 1 true⟩)), none, []⟩ := by decide
+example : run ListProgs.last [listArg 0 [1, 2, 3] false, .int 2] = ⟨some (.ret (.lst ⟨[2, 3], .fresh⟩)), none, []⟩ := by decide
+example : Pure (run ListProgs.cdr [listArg 0 [1, 2, 3] false]) [2, 3] (Obj.isTailOf 0 [1, 2, 3]) := cdr_refines [1, 2, 3] false (by simp)
+
 /-! ## functions whose result is fresh -/
 
 theorem butlast_refines (xs : List Val) (n : Nat) (asNil : Bool) (h : asNil = true → xs = []) :
@@ -104,6 +109,10 @@ theorem copySeq_refines (xs : List Val) (asNil : Bool) (h : asNil = true → xs 
   cases asNil
   · vc [ListProgs.copySeq, Pure]; fin
   · vc [ListProgs.copySeq, Pure, h]
+
+example : run ListProgs.butlast [listArg 0 [1, 2, 3] false, .int 1] = ⟨some (.ret (.lst ⟨[1, 2], .fresh⟩)), none, []⟩ := by decide
+example : Pure (run ListProgs.butlast [listArg 0 [1, 2, 3] false, .int 1]) [1, 2] Obj.isFresh := butlast_refines [1, 2, 3] 1 false (by simp)
+example : Pure (run ListProgs.copyList [.nil]) [] Obj.isFresh := copyList_refines [] true (by simp)
 
 /-- the call is rejected: a Lisp condition, or a Go run-time panic (which slip reports as a condition);
     nothing was written -/
@@ -220,6 +229,10 @@ theorem pop_empty_refines (asNil : Bool) :
   refine run_of_wp _ _ (fun o => o = _) ?_
   cases asNil <;> vc [ListProgs.pop]
 
+example : run ListProgs.subseq [listArg 0 [1, 2, 3] false, .int 1, .int 1] = ⟨some (.ret (.lst ⟨[], .fresh⟩)), none, []⟩ := by decide
+example : (run ListProgs.subseq [listArg 0 [1, 2, 3] false, .int 2, .int 1]).res = some .fault := by decide
+example : run ListProgs.listStar [.int 7, .int 8, listArg 2 [1] false] = ⟨some (.ret (.lst ⟨[7, 8, 1], .fresh⟩)), none, []⟩ := by decide
+
 /-! ## destructive functions: which storage is written, and what is returned -/
 
 /-- the object is list argument `i` itself (same storage window) -/
@@ -305,5 +318,8 @@ theorem rplacd_refines (x : Val) (rest ys : List Val) (asNil : Bool) (h : asNil 
     fin
   · vc [ListProgs.rplacd, h]
     fin
+
+example : run ListProgs.add [listArg 0 [1, 2] false, .int 3] = ⟨some (.ret (.lst ⟨[1, 2, 3], .grown 0⟩)), none, [0]⟩ := by decide
+example : run ListProgs.rplaca [listArg 0 [1, 2] false, .int 9] = ⟨some (.ret (.lst ⟨[9, 2], .arg 0 0 true⟩)), none, [0]⟩ := by decide
 
 end SlipVerif.C06Gen
